@@ -143,6 +143,8 @@ class SanReport:
 
 
 _frame_re = re.compile(r'^\s*#(\d+) 0x[0-9a-f]+ (?:in )?(.+?) (\S+?)(?::(\d+))?(?::\d+)?$')
+# ThreadSanitizer: "#0 ns::fn(args) /path/file.cpp:12:3 (module+0xoff) (BuildId: ...)"
+_tsan_frame_re = re.compile(r'^\s*#(\d+) (.+?) (/\S+?|<null>)(?::\d+)*(?: \(\S+\+0x[0-9a-f]+\))?(?: \(BuildId: [0-9a-f]+\))?\s*$')
 
 
 def _fn_name(sig):
@@ -190,6 +192,12 @@ def parse_san(text):
                     break
                 body.append(lj)
                 fm = _frame_re.match(lj)
+                if not fm and tool == 'tsan':
+                    tm = _tsan_frame_re.match(lj)
+                    if tm:
+                        fn = _fn_name(tm.group(2))
+                        path = tm.group(3)
+                        frames.append((fn, 'xercesc' in path and '/drivers/' not in path))
                 if fm:
                     fn = _fn_name(fm.group(2))
                     path = fm.group(3)
@@ -429,8 +437,11 @@ class Check:
         ev['coverage']['known_findings_observed'] = sorted(set(k['id'] for k, _, _ in known_hit))
         if self.inconclusive:
             ev['coverage']['inconclusive'] = self.inconclusive[:20]
-        os.makedirs(os.path.join(VERIF, 'evidence'), exist_ok=True)
-        with open(os.path.join(VERIF, 'evidence', self.pid + '.json'), 'w') as f:
+        # runs against a tree other than /repo (seeded-defect trials) must not overwrite the evidence of the real tree
+        alt = build.REPO != '/repo'
+        evdir = os.environ.get('XV_EVIDENCE_DIR') or (os.path.join(VERIF, 'evidence') if not alt else '/var/tmp/xv-alt-evidence')
+        os.makedirs(evdir, exist_ok=True)
+        with open(os.path.join(evdir, self.pid + '.json'), 'w') as f:
             json.dump(ev, f, indent=1, ensure_ascii=True, default=str)
         seen = set()
         for kf, key, v in known_hit:
@@ -440,7 +451,7 @@ class Check:
             print('KNOWN-FINDING: property=%s %s [%s] (%d case(s) this run)' % (self.pid, kf['what'], kf['id'], sum(x[2]['count'] for x in known_hit if x[0] is kf)))
         rc = 0
         for key, v in new:
-            rd = os.path.join(VERIF, 'replays', self.pid)
+            rd = os.path.join(VERIF, 'replays', self.pid) if not alt else os.path.join('/var/tmp/xv-alt-replays', self.pid)
             os.makedirs(rd, exist_ok=True)
             name = re.sub(r'[^A-Za-z0-9_.-]+', '_', key)[:80] + '-' + hashlib.sha1(key.encode()).hexdigest()[:8] + '.json'
             path = os.path.join(rd, name)
